@@ -86,13 +86,11 @@ def run(rep, tier):
         lam = strip(yw[0][2]["args"][0])
         body = TM.by_id.get(lam.get("id")) if lam.get("k") == "lambda" else None
         if body is not None:
-            rets = [e for _, _, e in body.all_events() if e.get("k") == "return" and e.get("e") is not None]
-            if len(rets) == 1:
-                from engine.kinds import expand_locals
-                e = strip(expand_locals(body, rets[0]["e"]))
-                a, pos = cond_atoms(e)
-                # normalised: "X < get_global_activity_count()" with X = (get_self_ptr() != nullptr ? 1 : 0)
-                good = pos and a.endswith("< get_global_activity_count()") and "get_self_ptr()" in a and "? 1 : 0" in a
+            # truth table of the predicate: waits exactly while count > (called from a task ? 1 : 0)
+            from engine.kinds import eval_predicate
+            table = [(c, t, eval_predicate(body, {"get_global_activity_count()": c, "get_self_ptr()": t, "nullptr": 0}))
+                     for c in (0, 1, 2, 3) for t in (0, 1)]
+            good = all(v is not None and v == (c > (1 if t else 0)) for c, t, v in table)
     from engine.kinds import bypass_path
     byp = bypass_path(w, lambda e: len(yw) == 1 and e is yw[0][2])
     if good and byp is not None:
@@ -116,13 +114,38 @@ def run(rep, tier):
         if len(fs) != 1:
             raise AnalysisBroken("runtime::%s: expected one definition, found %d" % (name, len(fs)))
         return fs[0]
-    fn = rt("wait")
-    a = calls(fn, short="wait_finalize")
+    # runtime::wait is read with its private helper wait_finalize in place (flattened), so the rule does not depend on
+    # whether that helper exists as a function of its own
+    RTF = facts(rep, lib("runtime", "src/runtime.cpp"), [r"^pika::detail::runtime::(wait|stop|stop_helper|suspend|resume|notify_finalize|wait_finalize|finalize)$"],
+                [r"^pika::detail::runtime$"], flatten=[r"^pika::detail::runtime::wait_finalize$"])
+    fn = [f for f in RTF.find(r"runtime::wait$") if f.parent == -1 and f.file.endswith("runtime.cpp")]
+    if len(fn) != 1:
+        raise AnalysisBroken("runtime::wait: expected one definition, found %d" % len(fn))
+    fn = fn[0]
+    if calls(fn, short="wait_finalize"):
+        raise AnalysisBroken("runtime::wait: wait_finalize could not be flattened")
+
+    def finalize_wait(e):
+        """condition-variable wait whose predicate lambda returns stop_done_"""
+        if not (e.get("k") == "call" and callee_short(e) == "wait" and len(e.get("args") or []) >= 2):
+            return False
+        lam = strip(e["args"][1])
+        body = RTF.by_id.get(lam.get("id")) if lam.get("k") == "lambda" else None
+        if body is None:
+            return False
+        r_ = [x for _, _, x in body.all_events() if x.get("k") == "return" and x.get("e") is not None]
+        return len(r_) == 1 and P(r_[0]["e"]).endswith("stop_done_")
+    a = [(b, i, ev) for b, i, ev in fn.all_events() if finalize_wait(ev)]
+    anywait = [(b, i, ev) for b, i, ev in fn.all_events() if ev.get("k") == "call" and callee_short(ev) == "wait" and "cond" in P(ev.get("recv")).lower()]
     b_ = calls(fn, qual="pika::threads::detail::thread_manager::wait")
     rets = [(b, i, ev) for b, i, ev in fn.all_events() if ev.get("k") == "return"]
+    if len(a) == 1:
+        rep.ok("C05.R3", fn, "the wait for finalize uses the predicate stop_done_")
+    elif anywait:
+        rep.bad("C05.R3", fn, loc_of(anywait[0][2]), "wait-finalize", "runtime::wait must wait for finalize with the predicate stop_done_ (no lost/spurious wake-up)")
     if len(a) == 1 and len(b_) == 1 and len(rets) == 1 and in_order(fn, [a[0], b_[0], rets[0]]) and P(rets[0][2]["e"]) == "this->result_":
-        rep.ok("C05.R3", fn, "wait_finalize() -> thread_manager_->wait() -> return result_")
-    else:
+        rep.ok("C05.R3", fn, "wait for finalize -> thread_manager_->wait() -> return result_")
+    elif len(a) == 1 or not anywait:
         rep.bad("C05.R3", fn, fn.loc, "wait-order", "runtime::wait must wait for finalize, then for the thread manager to drain, then return result_")
     fn = rt("stop")
     tms = calls(fn, qual="pika::threads::detail::thread_manager::stop")
@@ -148,19 +171,6 @@ def run(rep, tier):
         rep.ok("C05.R3", nf, "stop_done_ = true and notify_all under mtx_")
     else:
         rep.bad("C05.R3", nf, nf.loc, "notify-finalize", "finalize must set stop_done_ and notify under the runtime mutex")
-    wf = rt("wait_finalize")
-    wt = calls(wf, short="wait")
-    goodw = False
-    if len(wt) == 1 and len(wt[0][2]["args"]) >= 2:
-        lam = strip(wt[0][2]["args"][1])
-        body = RT.by_id.get(lam.get("id")) if lam.get("k") == "lambda" else None
-        if body is not None:
-            rets = [e for _, _, e in body.all_events() if e.get("k") == "return" and e.get("e") is not None]
-            goodw = len(rets) == 1 and P(rets[0]["e"]).endswith("stop_done_")
-    if goodw:
-        rep.ok("C05.R3", wf, "wait_finalize waits on the predicate stop_done_")
-    else:
-        rep.bad("C05.R3", wf, wf.loc, "wait-finalize", "wait_finalize must wait with the predicate stop_done_ (no lost/spurious wake-up)")
 
     IR = facts(rep, lib("init_runtime", "src/init_runtime.cpp"), [r"^pika::(stop|wait|finalize|suspend|resume)$", r"^pika::detail::run_or_start$"])
 
